@@ -997,6 +997,15 @@ fn derive_dot_expression(
                                     types: NarrowingShape::Any,
                                 }));
                             }
+                            // A candidate can itself be narrowed, or
+                            // unconstrained. Look the field up in it.
+                            Shape::Narrowed(_) => {
+                                let inner =
+                                    derive_dot_expression(pos, t, right_expr, symbol_table);
+                                if !matches!(inner, Shape::TypeErr(_, _)) {
+                                    results.push(inner);
+                                }
+                            }
                             _ => { /* not field-accessible, skip */ }
                         }
                     }
@@ -1040,6 +1049,15 @@ fn derive_dot_expression(
                                     pos: pi.pos.clone(),
                                     types: NarrowingShape::Any,
                                 }));
+                            }
+                            // A candidate can itself be narrowed, or
+                            // unconstrained. Index into it.
+                            Shape::Narrowed(_) => {
+                                let inner =
+                                    derive_dot_expression(pos, t, right_expr, symbol_table);
+                                if !matches!(inner, Shape::TypeErr(_, _)) {
+                                    results.push(inner);
+                                }
                             }
                             _ => { /* not int-indexable, skip */ }
                         }
